@@ -8,6 +8,12 @@
 //!      | 7 g g' d  forwarding rule: the module that receives a message through gate g (header.last_gate)
 //!                  sends THE RECEIVED Message object on gate g' after d ns (g' = g: echo back)
 //!      | 8 g t d b as 6, the message may be relayed min(b,8) times (budget and leg number travel in the content)
+//!      | 10 c m sz at sim start module c calls `m.spawner().gate(name, sz)` (m = c: on itself; m = c+4: on its
+//!                  child via `current().child(..)`; else through a held ModuleRef): sz new gates owned by m
+//!      | 11 c a b l br  at sim start module c calls a.connect(b, channel)
+//! Modules 0..3 are top-level ("m0".."m3"), module i >= 4 is the child "m{i-4}.c{i}".  Build-time operations
+//! (1-5, 9) run first, in order; the run-time ones (6-8, 10, 11) run in order inside at_sim_start (one start-up
+//! stage per spawn / run-time connect, sends in the last stage); records come out in that order; spawn -> 16.
 //! Output per op: connect -> 1 | kind -> 2 k | next_gate -> 3 h+1|0 | path_end -> 4 h+1|0 |
 //!   path_iter -> 5 0 (transit) | 5 1 n (gate latency+1|0 bitrate){n} | send -> 6 | rule -> 14 | unknown gate -> 7 | panic -> 9 site
 //! then, after running the simulation, one record per handled message sorted by (send number k, leg):
@@ -55,14 +61,27 @@ fn run_line(nums: &[u64]) -> Vec<u64> {
     }
 }
 
+#[derive(Clone)]
+enum Stage {
+    Spawn { rt: usize, caller: u64, target: u64, size: usize },
+    Conn { rt: usize, caller: u64, a: usize, b: usize, l: u64, br: u64 },
+}
+
 #[derive(Default)]
 struct Shared {
     gates: Vec<GateRef>,
+    /// declared owner of every gate (builder: the node named; spawner: the module the spawner belongs to)
+    owners: Vec<u64>,
+    mods: Vec<ModuleRef>,
     mod_ids: Vec<ModuleId>,
-    /// (k, gate index, owner module, t, d, budget)
-    sends: Vec<(u64, usize, u64, u64, u64, u64)>,
+    /// (k, gate index, t, d, budget)
+    sends: Vec<(u64, usize, u64, u64, u64)>,
     /// (arrival gate, out gate, delay)
     rules: Vec<(usize, usize, u64)>,
+    stages: Vec<Stage>,
+    /// record of every run-time operation
+    rt_out: Vec<Vec<u64>>,
+    poisoned: bool,
     log: Vec<Vec<u64>>,
 }
 
@@ -80,12 +99,41 @@ fn at(ns: u64) -> SimTime {
     SimTime::from_duration(Duration::from_nanos(ns))
 }
 
+fn mod_path(i: u64) -> String {
+    if i >= 4 {
+        format!("m{}.c{}", i - 4, i)
+    } else {
+        format!("m{i}")
+    }
+}
+
+fn mk_channel(l: u64, br: u64) -> Option<ChannelRef> {
+    if l == 0 {
+        None
+    } else {
+        Some(Channel::new(ChannelMetrics {
+            bitrate: br as usize,
+            latency: Duration::from_nanos(l - 1),
+            jitter: Duration::ZERO,
+            drop_behaviour: ChannelDropBehaviour::Drop,
+        }))
+    }
+}
+
+fn do_connect(ga: GateRef, gb: GateRef, l: u64, br: u64) -> Vec<u64> {
+    let ch = mk_channel(l, br);
+    match catch_unwind(AssertUnwindSafe(move || ga.connect(gb, ch))) {
+        Ok(()) => vec![1],
+        Err(e) => vec![9, site(&e, 5)],
+    }
+}
+
 impl Node {
     fn do_send(&self, k: u64) {
         let (gate, t, d, b) = {
             let sh = self.sh.lock().unwrap();
             let s = sh.sends.iter().find(|s| s.0 == k).copied().unwrap();
-            (sh.gates[s.1].clone(), s.3, s.4, s.5)
+            (sh.gates[s.1].clone(), s.2, s.3, s.4)
         };
         // content: relay budget << 8 | leg number
         let msg = Message::default().kind(PAYLOAD).id(k as u16).with_content(b << 8);
@@ -104,13 +152,72 @@ impl Node {
             self.sh.lock().unwrap().log.push(vec![k, 0, 12, 3]);
         }
     }
+
+    /// one run-time wiring operation, executed by the module the script names
+    fn do_stage(&self, st: Stage) {
+        match st {
+            Stage::Spawn { rt, caller, target, size } => {
+                if caller != self.idx {
+                    return;
+                }
+                let name = format!("r{rt}");
+                let created: Vec<GateRef> = if target == self.idx {
+                    let me = current();
+                    me.spawner().gate(&name, size);
+                    (0..size).map(|p| me.gate(&name, p).expect("spawned gate")).collect()
+                } else {
+                    // a parent reaches its child through `child(..)`, everybody else through a ModuleRef
+                    let m = if target == self.idx + 4 {
+                        current().child(&format!("c{target}")).expect("child module")
+                    } else {
+                        self.sh.lock().unwrap().mods[target as usize].clone()
+                    };
+                    m.spawner().gate(&name, size);
+                    (0..size).map(|p| m.gate(&name, p).expect("spawned gate")).collect()
+                };
+                let mut sh = self.sh.lock().unwrap();
+                for g in created {
+                    sh.gates.push(g);
+                    sh.owners.push(target);
+                }
+                sh.rt_out[rt] = vec![16];
+            }
+            Stage::Conn { rt, caller, a, b, l, br } => {
+                if caller != self.idx {
+                    return;
+                }
+                let (ga, gb) = {
+                    let sh = self.sh.lock().unwrap();
+                    (sh.gates[a].clone(), sh.gates[b].clone())
+                };
+                let r = do_connect(ga, gb, l, br);
+                self.sh.lock().unwrap().rt_out[rt] = r;
+            }
+        }
+    }
 }
 
 impl Module for Node {
-    fn at_sim_start(&mut self, _stage: usize) {
+    fn num_sim_start_stages(&self) -> usize {
+        self.sh.lock().unwrap().stages.len() + 1
+    }
+
+    fn at_sim_start(&mut self, stage: usize) {
+        let st = self.sh.lock().unwrap().stages.get(stage).cloned();
+        if let Some(st) = st {
+            self.do_stage(st);
+            return;
+        }
+        // last stage: the wiring is complete.  A poisoned gate mutex makes every later use of
+        // that gate panic: no messages are sent then.
+        let gates = self.sh.lock().unwrap().gates.clone();
+        if gates.iter().any(|g| catch_unwind(AssertUnwindSafe(|| g.kind())).is_err()) {
+            self.sh.lock().unwrap().poisoned = true;
+            return;
+        }
         let mine: Vec<(u64, u64)> = {
             let sh = self.sh.lock().unwrap();
-            sh.sends.iter().filter(|s| s.2 == self.idx).map(|s| (s.0, s.3)).collect()
+            sh.sends.iter().filter(|s| sh.owners[s.1] == self.idx).map(|s| (s.0, s.2)).collect()
         };
         for (k, t) in mine {
             if t == 0 {
@@ -186,6 +293,59 @@ fn site(e: &Box<dyn std::any::Any + Send>, poison_site: u64) -> u64 {
     }
 }
 
+enum Op {
+    Conn { a: usize, b: usize, l: u64, br: u64 },
+    Query { tag: u64, g: usize },
+    Send { g: usize, t: u64, d: u64, b: u64 },
+    Rule { g: usize, g2: usize, d: u64 },
+    Spawn { c: u64, m: u64, sz: usize },
+    RConn { c: u64, a: usize, b: usize, l: u64, br: u64 },
+}
+
+/// bitrates whose transmission time for the 72-byte message is not a whole number of ns are read as 0
+fn norm_br(br: u64) -> u64 {
+    if br != 0 && (MSG_BITS as u128 * 1_000_000_000) % br as u128 == 0 {
+        br
+    } else {
+        0
+    }
+}
+
+fn parse_ops(cur: &mut Cur, nm: u64) -> Vec<Op> {
+    let mut ops = Vec::new();
+    while !cur.done() {
+        let tag = cur.peek().unwrap();
+        let need = match tag {
+            1 | 6 | 7 | 10 => 4,
+            8 | 9 => 5,
+            11 => 6,
+            2..=5 => 2,
+            _ => break,
+        };
+        if cur.left() < need {
+            break;
+        }
+        cur.next();
+        ops.push(match tag {
+            1 => Op::Conn { a: cur.next() as usize, b: cur.next() as usize, l: cur.next(), br: 0 },
+            9 => Op::Conn { a: cur.next() as usize, b: cur.next() as usize, l: cur.next(), br: norm_br(cur.next()) },
+            2..=5 => Op::Query { tag, g: cur.next() as usize },
+            6 => Op::Send { g: cur.next() as usize, t: cur.next(), d: cur.next(), b: 0 },
+            8 => Op::Send { g: cur.next() as usize, t: cur.next(), d: cur.next(), b: cur.next().min(8) },
+            7 => Op::Rule { g: cur.next() as usize, g2: cur.next() as usize, d: cur.next() },
+            10 => Op::Spawn { c: cur.next() % nm, m: cur.next() % nm, sz: cur.next().clamp(1, 6) as usize },
+            _ => Op::RConn {
+                c: cur.next() % nm,
+                a: cur.next() as usize,
+                b: cur.next() as usize,
+                l: cur.next(),
+                br: norm_br(cur.next()),
+            },
+        });
+    }
+    ops
+}
+
 fn run_script(nums: &[u64]) -> Vec<u64> {
     if nums.is_empty() {
         return vec![7];
@@ -197,7 +357,7 @@ fn run_script(nums: &[u64]) -> Vec<u64> {
     let sh = Arc::new(Mutex::new(Shared::default()));
     let mut sim = Sim::new(());
     for i in 0..nm {
-        sim.node(format!("m{i}"), Node { idx: i, sh: sh.clone() });
+        sim.node(mod_path(i).as_str(), Node { idx: i, sh: sh.clone() });
     }
     let mut gates: Vec<GateRef> = Vec::new();
     let mut owners: Vec<u64> = Vec::new();
@@ -207,7 +367,7 @@ fn run_script(nums: &[u64]) -> Vec<u64> {
         }
         let o = pair[0] % nm;
         let sz = pair[1].clamp(1, 6) as usize;
-        let path = format!("m{o}");
+        let path = mod_path(o);
         let name = format!("g{gi}");
         if sz == 1 {
             gates.push(sim.gate(path.as_str(), &name));
@@ -221,58 +381,28 @@ fn run_script(nums: &[u64]) -> Vec<u64> {
     }
     {
         let mut s = sh.lock().unwrap();
-        s.gates = gates.clone();
         for i in 0..nm {
-            let m = sim.globals().get(&format!("m{i}").as_str().into()).expect("module");
+            let m = sim.globals().get(&mod_path(i).as_str().into()).expect("module");
             s.mod_ids.push(m.id());
+            s.mods.push(m);
         }
     }
     let gidx = |g: &GateRef| gates.iter().position(|x| Arc::ptr_eq(x, g)).map_or(9999, |p| p as u64);
 
+    let ops = parse_ops(&mut cur, nm);
     let mut out: Vec<u64> = Vec::new();
-    let mut nsend = 0u64;
-    while !cur.done() {
-        let tag = cur.peek().unwrap();
-        let need = match tag {
-            1 | 6 | 7 => 4,
-            8 | 9 => 5,
-            2..=5 => 2,
-            _ => break,
-        };
-        if cur.left() < need {
-            break;
-        }
-        cur.next();
-        match tag {
-            1 | 9 => {
-                let a = cur.next() as usize;
-                let b = cur.next() as usize;
-                let l = cur.next();
-                // bitrates whose transmission time for the 72-byte message is not a whole number of ns are read as 0
-                let br = if tag == 9 { cur.next() } else { 0 };
-                let br = if br != 0 && (MSG_BITS as u128 * 1_000_000_000) % br as u128 == 0 { br } else { 0 };
+
+    // ---- build time: connects and queries, in order
+    for op in &ops {
+        match *op {
+            Op::Conn { a, b, l, br } => {
                 if a >= gates.len() || b >= gates.len() {
                     out.push(7);
                     continue;
                 }
-                let ch = if l == 0 {
-                    None
-                } else {
-                    Some(Channel::new(ChannelMetrics {
-                        bitrate: br as usize,
-                        latency: Duration::from_nanos(l - 1),
-                        jitter: Duration::ZERO,
-                        drop_behaviour: ChannelDropBehaviour::Drop,
-                    }))
-                };
-                let (ga, gb) = (gates[a].clone(), gates[b].clone());
-                match catch_unwind(AssertUnwindSafe(move || ga.connect(gb, ch))) {
-                    Ok(()) => out.push(1),
-                    Err(e) => out.extend([9, site(&e, 5)]),
-                }
+                out.extend(do_connect(gates[a].clone(), gates[b].clone(), l, br));
             }
-            2..=5 => {
-                let g = cur.next() as usize;
+            Op::Query { tag, g } => {
                 if g >= gates.len() {
                     out.push(7);
                     continue;
@@ -309,43 +439,71 @@ fn run_script(nums: &[u64]) -> Vec<u64> {
                     Err(e) => out.extend([9, site(&e, 4)]),
                 }
             }
-            7 => {
-                let g = cur.next() as usize;
-                let g2 = cur.next() as usize;
-                let d = cur.next();
-                if g >= gates.len() || g2 >= gates.len() {
-                    out.push(7);
-                    continue;
-                }
-                sh.lock().unwrap().rules.push((g, g2, d));
-                out.push(14);
-            }
-            _ => {
-                let g = cur.next() as usize;
-                let t = cur.next();
-                let d = cur.next();
-                let b = if tag == 8 { cur.next().min(8) } else { 0 };
-                if g >= gates.len() {
-                    out.push(7);
-                    continue;
-                }
-                sh.lock().unwrap().sends.push((nsend, g, owners[g], t, d, b));
-                nsend += 1;
-                out.push(6);
-            }
+            _ => {}
         }
     }
 
-    // a poisoned gate mutex makes every later use of that gate panic: do not run
-    let poisoned = gates.iter().any(|g| catch_unwind(AssertUnwindSafe(|| g.kind())).is_err());
-    if poisoned {
+    // ---- run time: which gates exist when is known from the script alone (spawn sizes)
+    let mut ng = gates.len();
+    let mut rt_out: Vec<Vec<u64>> = Vec::new();
+    let mut stages: Vec<Stage> = Vec::new();
+    let mut sends: Vec<(usize, u64, u64, u64)> = Vec::new();
+    let mut rules: Vec<(usize, usize, u64)> = Vec::new();
+    for op in &ops {
+        match *op {
+            Op::Send { g, t, d, b } => {
+                rt_out.push(vec![if g < ng { 6 } else { 7 }]);
+                sends.push((g, t, d, b));
+            }
+            Op::Rule { g, g2, d } => {
+                rt_out.push(vec![if g < ng && g2 < ng { 14 } else { 7 }]);
+                rules.push((g, g2, d));
+            }
+            Op::Spawn { c, m, sz } => {
+                stages.push(Stage::Spawn { rt: rt_out.len(), caller: c, target: m, size: sz });
+                rt_out.push(vec![]);
+                ng += sz;
+            }
+            Op::RConn { c, a, b, l, br } => {
+                if a < ng && b < ng {
+                    stages.push(Stage::Conn { rt: rt_out.len(), caller: c, a, b, l, br });
+                    rt_out.push(vec![]);
+                } else {
+                    rt_out.push(vec![7]);
+                }
+            }
+            _ => {}
+        }
+    }
+    {
+        // sends and rules count when their gates exist in the final table
+        let mut s = sh.lock().unwrap();
+        s.gates = gates.clone();
+        s.owners = owners.clone();
+        let mut k = 0;
+        for (g, t, d, b) in sends {
+            if g < ng {
+                s.sends.push((k, g, t, d, b));
+                k += 1;
+            }
+        }
+        s.rules = rules.into_iter().filter(|r| r.0 < ng && r.1 < ng).collect();
+        s.stages = stages;
+        s.rt_out = rt_out;
+    }
+
+    let rt = Builder::seeded(1).quiet().build(sim.freeze());
+    let res = catch_unwind(AssertUnwindSafe(|| rt.run()));
+    // the runtime installs and removes its own panic hook
+    std::panic::set_hook(Box::new(|_| {}));
+    let mut s = sh.lock().unwrap();
+    for r in &s.rt_out {
+        out.extend(r);
+    }
+    if s.poisoned {
         out.push(10);
     } else {
-        let rt = Builder::seeded(1).quiet().build(sim.freeze());
-        let res = catch_unwind(AssertUnwindSafe(|| rt.run()));
-        // the runtime installs and removes its own panic hook
-        std::panic::set_hook(Box::new(|_| {}));
-        let mut log = std::mem::take(&mut sh.lock().unwrap().log);
+        let mut log = std::mem::take(&mut s.log);
         log.sort();
         for r in log {
             // [k, leg, tag, rest..] -> tag k leg rest..
@@ -354,15 +512,16 @@ fn run_script(nums: &[u64]) -> Vec<u64> {
             out.push(r[1]);
             out.extend(&r[3..]);
         }
-        match res {
-            Ok(Ok(_)) => {}
-            Ok(Err(_)) => out.push(13),
-            Err(_) => out.push(666),
-        }
     }
-    let mut s = sh.lock().unwrap();
+    match res {
+        Ok(Ok(_)) => {}
+        Ok(Err(_)) => out.push(13),
+        Err(_) => out.push(666),
+    }
     s.gates.clear();
+    s.mods.clear();
     s.sends.clear();
     s.rules.clear();
+    s.stages.clear();
     out
 }
